@@ -10,7 +10,7 @@ CHECKS = {
    note='Trusted: z3, the symx proxies, the stub network (vlib/world.py), the reference interpreter (vlib/refsem.py). Floats are exact reals; numeral parsing is outside (C16).', ref='4/C01'),
  'C07': dict(cat='exploration', tech=SYMX + '; exact round-half-even via ToInt, NRA for rgb',
    text='For every unit mode and every command kind that transmits a colour or duration (light, group, location, all, zone, matrix cell, matrix default, power on light/group/location/all, and-lists) the registers are unconstrained symbolic reals (|x|<=1e12) and every feasible path through units.py, param_helper, the VM and the device wrappers is explored; z3 shows that each transmitted number is an integer in protocol range and within 1/2 of the documented formula (clamped). Raw integer pass-through is checked exactly. IEEE part: six clamp-and-round kernels (param_16/32, percent and time scaling, hue scaling on 0<=h<360, ColorMatrix._standardize_raw) run on z3 Float64 proxies: for every double, incl. infinities and NaN, the result is an integer in range and no exception escapes.',
-   note='Real arithmetic stands in for IEEE doubles (float rounding outside the claim); rgb exactness only for components in 0..100. Trusted: z3, symx proxies, stub network, spec formulas in vlib/refsem.py.', ref='4/C07'),
+   note='Real arithmetic stands in for IEEE doubles in the conversion chains (only the final clamp-and-round kernels are also done in Float64); rgb exactness only for components in 0..100. Trusted: z3, symx proxies, stub network, spec formulas in vlib/refsem.py.', ref='4/C07'),
  'C14': dict(cat='exploration', tech='relational ' + SYMX + '; round-elision for rgb chains',
    text='Every chain of up to 2 (quick) / 4 (thorough) unit switches from every start mode is executed twice by the real VM on the same symbolic registers (with and without the switches); z3 shows the transmitted colour (as a colour), the duration and the pending delay agree within one raw unit on every path pair, kelvin is unchanged, and for each of the 9 (from,to) transitions exactly the registers outside the documented table keep their values.',
    note='Registers within documented valid ranges. Chains with rgb use round-elision (unrounded values agree to 1/4, implying <=1 unit for <=3 roundings). Real arithmetic for floats.', ref='4/C14'),
@@ -43,10 +43,10 @@ CHECKS = {
    note='Every invariant-satisfying directory is reachable by one discover from empty, so the step covers histories of any length provided the invariant check is complete for the public getters. time.time in controller.light is stubbed.', ref='4/C13'),
  'C12': dict(cat='fault_enumeration', tech='fault enumeration by symbolic choice variables over the real retry/VM/LightSet code (symx), z3 for colour values',
    text='Six scripts (plain sequence, group/location fan-out, zone, matrix, broadcast, light loop) with symbolic colours run with every fail/succeed vector for the requests to one faulty device (up to 4 consecutive failures per request): the script reaches its end, no request is tried more than 3 times, and the commands reaching all other devices equal the fault-free run on the same values (z3); every fault vector and every replay runs in a freshly forked process so that state kept at module or class level cannot leak between them; thorough adds every other single faulty device and four pairs. Twelve unknown-name and capability-mismatch commands between ordinary commands: only the ordinary commands arrive. Discovery with each of plain/multizone/matrix/LAN faulty at every construction-time request: never raises, False leaves the directory unchanged, True yields lights a script can address with every command kind.',
-   note='Not answering = lifxlan raises WorkflowException; LAN broadcasts (fire-and-forget) are not made to fail; scripts avoid get from the faulty device.', ref='4/C12'),
+   note='Not answering = lifxlan raises WorkflowException; LAN broadcasts (fire-and-forget) are not made to fail.', ref='4/C12'),
  'C10': dict(cat='exploration', tech=SYMX + ' with time as a symbolic variable (z3 LRA)',
    text='Every sequence of up to 3 (quick) / 4 (thorough) statements (timed delay, zero delay, time-of-day wait) runs on the real Clock with symbolic start instant, delay values, work before each statement, tick length and tick phase; z3 shows on every path that the k-th delay never ends before origin + sum of delays, ends within one tick when the script was not late, returns at once without accumulating lateness when late, that a zero delay never blocks, and that the time line restarts at the return of a time-of-day wait. Five scripts on the real VM bound to the real Clock (logical and raw units, and-lists, loops, unit switch) with symbolic time registers and transmission times: every command is sent within the window its delays allow.',
-   note='Clock thread modelled sequentially (Event.wait returns at the next tick); at most 4 ticks per delay; interleavings with the clock thread are not covered here. time/threading/datetime in bardolph.lib.clock are stubs.', ref='4/C10'),
+   note='Symbolic part: clock thread modelled sequentially (Event.wait returns at the next tick or times out); at most 4 (6) waits per delay. Interleaving part: concrete delays. time/threading/datetime in bardolph.lib.clock are stubs.', ref='4/C10'),
  'C06': dict(cat='exploration', tech='symbolic token stream (lazy choice variables, depth-first exhaustive) through the real parser, loader and VM; z3 regex lemma for lexer totality',
    text='After a fixed preamble (macro, string macro, variable, function, routine) every sequence of 3 tokens (quick; 5 in thorough, plus 1200 seeded 4-token families in quick) over a 92-word alphabet (all keywords, registers, names, literals, time patterns, operators/brackets, comment, garbage, internal token-class names, case variants) is compiled: no exception, accept or rejection with a line-numbered message, no acceptance before all tokens are read, accepted programs load and run without an internal fault. 30 documented rule breakers in 4 contexts are rejected and leave the job without a program. Token deletion/duplication/swap/truncation/replacement at every position of 12 valid scripts. z3 lemma: every non-blank ASCII string is covered by the lexer\'s last alternative.',
    note='Tokens are drawn lazily (one path covers all continuations after the parser stops reading). Script-level run-time errors (division by zero, type confusion of script values) are not counted as internal faults. Inputs longer than the bound and non-ASCII bytes are outside.', ref='4/C06'),
@@ -68,6 +68,21 @@ CHECKS = {
 }
 PENDING = {
 }
+# sentences added as the checks were strengthened (appended to the level text)
+EXTRA = {
+ 'C01': ' Also: every sequence of up to 3 unit switches between setting time/duration and a command (exhaustive), and return from inside one or two nested loops with the caller\'s loop pending.',
+ 'C04': ' Populations include a mixed-case one (code-point order); a return-from-loops family checks that leaving nested light loops by return discards exactly their pending names.',
+ 'C07': ' IEEE part: six clamp-and-round kernels of units.py/color_matrix.py run on z3 Float64 proxies over every double (incl. NaN, infinities): result is an integer in range. Paths the proxies cannot follow (math.fmod, colorsys) are decided by concrete runs on solver models of each region of the path condition.',
+ 'C08': ' Job bodies return, raise an Exception or end through a BaseException (sys.exit) as a choice; clear_queue is one of the client operations.',
+ 'C09': ' Stop APIs include the real WebApp.stop_all (flask stubbed) with queued and background-only jobs and a stop issued while the predecessor job is finishing (stop_next). Schedules are explored by iterative context bounding (0, 1, 2(, 3) preemptions).',
+ 'C10': ' Event.wait(timeout) is modelled with its time-out (tick length up to 10 s; a wait returns False when no tick falls inside it). Additionally the real clock thread runs under the deterministic scheduler (concrete delays, ticks 0.1/0.25/1.5 s, <= 2/3 preemptions).',
+ 'C11': ' (5) the real Clock.wait_until on compiled patterns with datetime.now() a stub returning arbitrary non-decreasing instants (symbolic minute of the day, 0..2 minutes between readings): the wait ends only on a time the clock showed and the list denotes.',
+ 'C12': ' One script reads the colour of the faulty light (get) and uses the registers afterwards. Every path runs in a forked child (retry counters are process-level state).',
+ 'C13': ' The VM\'s discovery instructions (disc/dnext over lights, groups, locations; discm/dnextm over members; both directions) run with an arbitrary new discovery or expiry between any two steps: no exception, each step yields the nearest name listed at that moment, every remaining name is visited once, the iteration ends.',
+ 'C17': ' Re-run jobs include scripts with time-pattern alternatives; the compiled program is compared including pattern denotations.',
+ 'C18': ' Names also contain backslashes and str.format/percent metacharacters on all three device kinds; an exception while capturing is a violation.',
+ 'C19': ' String values include backslashes, embedded \\n and escaped double quotes at either end.',
+}
 ALL = ['C%02d' % i for i in range(1, 21)]
 
 
@@ -84,7 +99,7 @@ def main():
             'evidence_file': 'evidence/%s.json' % pid,
             'replay_cmd_template': './check %s --replay {path}' % pid,
             'engine': 'symx',
-            'level_claimed': {'category': c['cat'], 'text': c['text'], 'design_ref': 'DESIGN.md sect. ' + c['ref']},
+            'level_claimed': {'category': c['cat'], 'text': c['text'] + EXTRA.get(pid, ''), 'design_ref': 'DESIGN.md sect. ' + c['ref']},
             'level_note': c['note'],
             'technique': c['tech'],
         })
@@ -99,6 +114,10 @@ def main():
         'engines': [
             {'name': 'symx', 'path': 'vlib/symx.py', 'serves_properties': sorted(CHECKS), 'kind_free_text': 'proxy-object symbolic executor over z3 Real/Int/Bool with DFS path exploration and concrete replay'},
             {'name': 'refsem', 'path': 'vlib/refsem.py', 'serves_properties': [p for p in ('C01', 'C03', 'C04', 'C05', 'C15', 'C18', 'C19') if p in CHECKS], 'kind_free_text': 'reference interpreter of the script language (oracle)'},
+            {'name': 'simsched', 'path': 'vlib/simsched.py', 'serves_properties': ['C08', 'C09', 'C10'], 'kind_free_text': 'baton-passing shims for threading/time: every thread switch at a shim operation or traced shared field is a symx choice variable; preemption bound, discrete-event virtual time'},
+            {'name': 'rx2z3', 'path': 'vlib/rx2z3.py', 'serves_properties': ['C06', 'C11', 'C16'], 'kind_free_text': 'translator from the live lexer/time-pattern regular expressions (re._parser op trees) to z3 regular-expression terms'},
+            {'name': 'ufterm', 'path': 'vlib/ufterm.py', 'serves_properties': ['C02'], 'kind_free_text': 'uninterpreted-function operand terms (z3 EUF) for parse-tree identity'},
+            {'name': 'symfp', 'path': 'vlib/symfp.py', 'serves_properties': ['C07'], 'kind_free_text': 'proxy objects over z3 Float64 (round-to-nearest-even) for IEEE range lemmas on the real clamp-and-round kernels'},
         ],
         'checks': checks,
         'not_applicable': na,
